@@ -9,19 +9,23 @@ verus! {
 #[verifier::external_body]
 pub struct ExParseIntError(core::num::ParseIntError);
 
-// TRUSTED[fromstr-trait-declared]: declares std::str::FromStr (name and associated Err type only) so that `parse` can be given a specification.
+// TRUSTED[fromstr-trait-declared]: declares std::str::FromStr (its Err type and from_str, no specification) so that `parse` can be given
+// a specification and so that a repository `impl FromStr` can be verified in place.
 #[verifier::external_trait_specification]
 pub trait ExFromStr: Sized {
     type ExternalTraitSpecificationFor: std::str::FromStr;
     type Err;
+    fn from_str(s: &str) -> Result<Self, Self::Err>;
 }
 
 /// the value `s.parse::<F>()` yields when it succeeds (uninterpreted: which texts parse, and to what, is std's)
 pub uninterp spec fn parse_spec<F>(s: Seq<char>) -> Option<F>;
 
-// TRUSTED[str-parse]: names the result of str::parse::<F>() as a function of the text (std's FromStr impls are deterministic).
+// TRUSTED[str-parse]: names the result of str::parse::<F>() as a function of the text (std's FromStr impls are deterministic), and
+// `s.parse::<F>()` is `F::from_str(s)` (std doc: "parse … uses FromStr::from_str"), so a contract proved on a repository `from_str` carries over.
 pub assume_specification<F: std::str::FromStr> [str::parse::<F>] (s: &str) -> (r: Result<F, <F as std::str::FromStr>::Err>)
-    ensures r is Ok <==> parse_spec::<F>(s@) is Some, r is Ok ==> Some(r->Ok_0) == parse_spec::<F>(s@);
+    ensures r is Ok <==> parse_spec::<F>(s@) is Some, r is Ok ==> Some(r->Ok_0) == parse_spec::<F>(s@),
+        call_ensures(F::from_str, (s,), r);
 
 // TRUSTED[str-strip-prefix]: strip_prefix(pat) removes one leading occurrence of a string/char pattern, None if absent (std doc).
 #[verifier::allow(undeclared_external_trait)]
